@@ -128,6 +128,16 @@ impl FromStr for Fen {
         #[allow(clippy::unwrap_used)]
         Self::validate_ranks(group_to_slice(1).map(|range| &fen[range.start..range.end]).unwrap())?;
 
+        // the clocks are stored as u32: reject what does not fit (the grammar's \d+ also lets
+        // non-ASCII digits through)
+        for clock_group in [5, 6] {
+            if let Some(range) = group_to_slice(clock_group) {
+                if fen[range.start..range.end].parse::<u32>().is_err() {
+                    return Err(InvalidCapture(fen));
+                }
+            }
+        }
+
         Ok(
             #[allow(clippy::unwrap_used)]
             Self {
